@@ -10,7 +10,7 @@
 (* One initial state per row (wide and shallow), verdicts are total: every *)
 (* rejected row prints <<"REJECT", id, clause, expected>>.                 *)
 (***************************************************************************)
-EXTENDS Rules, TLC
+EXTENDS Rules, TLC, Json, IOUtils
 
 Obs == ndJsonDeserialize(IOEnv.QA_OBS_FILE)
 VARIABLE l
@@ -24,7 +24,10 @@ Check(o) ==
   /\ IF o.a # o.a2 THEN Reject(o, "pure", o.a2) ELSE TRUE
   /\ IF o.res \notin {ERR, FAIL} /\ ~WellFormed(o.res) THEN Reject(o, "wf", o.res) ELSE TRUE
 
-Init == l \in 1..Len(Obs) /\ Check(Obs[l])
+\* the batch is deserialised once into a TLC register (a plain reference to Obs re-reads the
+\* file for every state: measured 59 s instead of 3 s for 8000 rows)
+ASSUME TLCSet(7, Obs)
+Init == LET O == TLCGet(7) IN l \in 1..Len(O) /\ Check(O[l])
 Next == UNCHANGED l
 Spec == Init /\ [][Next]_l
 =============================================================================
